@@ -178,9 +178,10 @@ inductive AttrRef where
   | infoRef (val : Off)                              -- `AttributeValue::DebugInfoRef`
   | expr (ops : List OpRef)                          -- `AttributeValue::Exprloc`
   /-- `LocationListsRef` / `DebugLocListsIndex`: the raw entries that carry an expression, in
-  order; the flag says whether the cooked `LocListIter` would yield the entry (not a tombstone,
-  `begin < end`) — irrelevant to the code since fix 34014b9 (`add_location_refs` walks the raw
-  entries), kept so that request lines still describe the range kind -/
+  order. `add_location_refs` (since fix 34014b9) and `LocationList::from` look at the expression
+  of every one of them; the flag says whether the converted list keeps the entry
+  (`LocationList::from` drops entries with `begin == end` AFTER converting their expression), i.e.
+  whether its references are written -/
   | loclist (locs : List (Bool × List OpRef))
   deriving Repr
 
@@ -397,6 +398,9 @@ def convertUnits (ids : List Off) :
 inductive Outcome where
   | converted (reserved : List (List Off)) (units : List (List (Off × Option Off)))
   | convErr (e : ConvErr)
+  /-- `Dwarf::write` fails with `Error::InvalidReference`: a written DIE references an id that was
+  reserved but never added -/
+  | writeErr
   | panic (why : String)
   | diverge
   deriving Repr, DecidableEq
@@ -424,9 +428,29 @@ def run (m : Mode) (units : List (UnitHdr × List Entry)) (rootAttrs : List (Lis
         | .error e => .convErr e
         | .ok us => .converted parts us
 
+/-- the offsets a converted and written attribute points to (location-list entries with an empty
+range are dropped by the conversion; `convAttr … = none` implies every unit-relative
+one is in bounds and none is nested too deep, so these are exactly the recorded ones) -/
+def attrTargets (u : UnitHdr) : AttrRef → List Off
+  | .loclist locs => locs.flatMap (fun l => if l.1 then l.2.flatMap (opDeps u) else [])
+  | a => attrDeps u a
+
+/-- `Unit::write` resolves every reference through the offsets of the DIEs it has written: an id
+that was reserved (`new_with_offsets` reserves every reachable offset of the whole split section)
+but never added (only the DIEs of the converted unit are) gives `Error::InvalidReference` -/
+def splitWriteOk (u : UnitHdr) (es : List Entry) (rootAttrs : List AttrRef)
+    (res : List (Off × Option Off)) : Bool :=
+  let written := u.rootOff :: res.map (·.1)
+  (rootAttrs.flatMap (attrTargets u)).all written.contains &&
+  es.all (fun e => !written.contains (u.base + e.off) ||
+    (e.attrs.flatMap (attrTargets u)).all written.contains)
+
 /-- split DWARF: `FilterUnitSection::new_split`, `ConvertUnit::convert_split_with_filter`
-(`ConvertSplitUnitSection::new_with_filter` + `new_with_offsets`): only the first unit of the split
-section is converted and every reachable offset is reserved in it, without a per-unit scan -/
+(`ConvertSplitUnitSection::new_with_filter` + `new_with_offsets`). The split section is a LIST of
+units: the filter walks all of them (the user's `while let Some(unit) = filter.read_unit()`), so
+the graph and the reachable offsets range over the whole section; the conversion takes the FIRST
+unit (`filter.units.into_iter().next()`, the unit `convert_split` converts as well), reserves every
+reachable offset in it without a per-unit scan and walks only that unit's DIEs. -/
 def runSplit (m : Mode) (units : List (UnitHdr × List Entry)) (rootAttrs : List (List AttrRef) := []) : Outcome :=
   match buildDeps m units rootAttrs with
   | .panic w => .panic w
@@ -443,6 +467,19 @@ def runSplit (m : Mode) (units : List (UnitHdr × List Entry)) (rootAttrs : List
       | ue :: _ =>
         match convertUnits (ue.1.rootOff :: offsets) [ue] rootAttrs with
         | .error e => .convErr e
-        | .ok us => .converted [offsets] us
+        | .ok us =>
+          if splitWriteOk ue.1 ue.2 (rootAttrs.headD []) (us.headD []) then .converted [offsets] us
+          else .writeErr
+
+/-- the unfiltered `ConvertUnit::convert_split` (`ConvertSplitUnitSection::new`): the first unit of
+the split section with all of its DIEs reserved (`read_entry_offsets`) -/
+def runSplitUnfiltered (units : List (UnitHdr × List Entry)) (rootAttrs : List (List AttrRef) := []) : Outcome :=
+  match units with
+  | [] => .panic "MissingSplitUnit"
+  | ue :: _ =>
+    let offsets := ue.2.map (fun e => ue.1.base + e.off)
+    match convertUnits (ue.1.rootOff :: offsets) [ue] rootAttrs with
+    | .error e => .convErr e
+    | .ok us => .converted [offsets] us
 
 end Gimli.Filter
